@@ -21,6 +21,32 @@ pub(crate) use libc::venv::__clear_cache;
 '''
 
 
+R4_ARM64 = '''
+// [verif-mount R4] accessor for the module-private entry encoder
+#[cfg(feature = "priv_access")]
+pub(crate) mod __verif_access {
+    use crate::injector_core::common::*;
+    pub(crate) fn apply(src: FuncPtrInternal, jit: *mut u8, size: usize, orig: &[u8]) -> PatchGuard {
+        super::apply_branch_patch(src, jit, size, orig)
+    }
+}
+'''
+
+R4_AMD64 = '''
+// [verif-mount R4] accessors for the module-private encoder entry points
+#[cfg(feature = "priv_access")]
+pub(crate) mod __verif_access {
+    use crate::injector_core::common::*;
+    pub(crate) fn branch(ori: usize, target: usize) -> Vec<u8> {
+        super::generate_branch_to_target_function(ori, target)
+    }
+    pub(crate) fn patch(src: FuncPtrInternal, jit: *mut u8, size: usize) -> PatchGuard {
+        super::patch_and_guard(src, jit, size)
+    }
+}
+'''
+
+
 def sha(b):
     return hashlib.sha256(b).hexdigest()
 
@@ -71,6 +97,13 @@ def mount_variant(repo, variant, dst, access_path, counts):
                 n3 = text.count('#[cfg(target_os = "macos")]')
                 text = text.replace('#[cfg(target_os = "macos")]', '#[cfg(all())] // [verif-mount R3]')
                 counts["R3"] = counts.get("R3", 0) + n3
+            # R4: accessors for module-private encoder entry points (only compiled with feature priv_access)
+            if rel == os.path.join("injector_core", "patch_arm64.rs"):
+                text = text.rstrip("\n") + "\n" + R4_ARM64
+                counts["R4"] = counts.get("R4", 0) + 1
+            if rel == os.path.join("injector_core", "patch_amd64.rs"):
+                text = text.rstrip("\n") + "\n" + R4_AMD64
+                counts["R4"] = counts.get("R4", 0) + 1
             if rel == "lib.rs":
                 text = text.rstrip("\n") + "\n\n// [verif-mount] harness access module\n" \
                     + f'#[path = "{access_path}"]\npub mod vaccess;\n' \
@@ -83,6 +116,7 @@ def mount_variant(repo, variant, dst, access_path, counts):
         text = open(p64).read()
         text = CFG_ARCH.sub(lambda m: "// [verif-mount R1] " + m.group(0).strip(), text, count=1)
         text = text.replace('not(target_os = "macos")', 'any()').replace('target_os = "macos"', 'all()')
+        text = text.rstrip("\n") + "\n" + R4_ARM64
         rel = os.path.join("injector_core", "patch_arm64_macsim.rs")
         wanted.add(rel)
         write_if_changed(os.path.join(dst, rel), text)
